@@ -49,6 +49,18 @@ pub enum RFp {
     /// FINGERPRINT carrying the value of the FINGERPRINT of the buffer delivered just before (a value the client has seen
     /// - and possibly verified - on another message)
     ValueOfPrevious,
+    /// a wrong / no FINGERPRINT on a message that also carries an unknown comprehension-required attribute (a client
+    /// that handles such attributes must not do so before it has checked the FINGERPRINT)
+    BadWithUnknownRequired,
+    AbsentWithUnknownRequired,
+    /// a wrong FINGERPRINT, and BEYOND the end of the message (the header length is not changed) 12 more bytes in the
+    /// buffer: the little-endian CRC-32 of the message followed by `80 28 00 04 00 00 00 00`; the FINGERPRINT value is the
+    /// CRC-32 residue constant XOR 0x5354554e, so "the last 8 bytes of the buffer are a FINGERPRINT whose value matches the
+    /// CRC of everything before them" holds although the message's own FINGERPRINT is wrong
+    BadWithResidueTrailer,
+    /// a wrong FINGERPRINT, and beyond the end of the message a FINGERPRINT-shaped trailer carrying the CRC that would be
+    /// right for the message
+    BadWithLookalikeTrailer,
 }
 
 #[derive(Clone, Copy, Debug, PartialEq, Eq, Hash, serde::Serialize, serde::Deserialize)]
@@ -200,6 +212,9 @@ pub fn build_reply(w: &World, tid: [u8; 12], req: Option<&[u8]>, r: &Reply) -> V
         RClass::Indication => (1, vec![L::Software("ind".into())]),
         RClass::Request => (0, vec![L::Software("req".into())]),
     };
+    if matches!(r.fp, RFp::BadWithUnknownRequired | RFp::AbsentWithUnknownRequired) {
+        attrs.push(L::Unknown(0x7F01, Some(vec![1, 2, 3, 4])));
+    }
     if let Some(c) = &r.chal {
         let mut ch: Vec<L> = vec![];
         if c.realm {
@@ -252,8 +267,8 @@ pub fn build_reply(w: &World, tid: [u8; 12], req: Option<&[u8]>, r: &Reply) -> V
         }
     }
     match r.fp {
-        RFp::Absent | RFp::MisplacedWrongLen => {}
-        RFp::BadThenDecoy | RFp::BadThenSecondFp => {
+        RFp::Absent | RFp::MisplacedWrongLen | RFp::AbsentWithUnknownRequired => {}
+        RFp::BadThenDecoy | RFp::BadThenSecondFp | RFp::BadWithUnknownRequired | RFp::BadWithResidueTrailer | RFp::BadWithLookalikeTrailer => {
             attrs.push(L::Fp);
             macs.push(Mac::Bad);
         }
@@ -288,6 +303,19 @@ pub fn build_reply(w: &World, tid: [u8; 12], req: Option<&[u8]>, r: &Reply) -> V
         let crc = crypto::crc32(&bytes) ^ 0x5354_554e;
         bytes.extend_from_slice(&[0x80, 0x28, 0x00, 0x04]);
         bytes.extend_from_slice(&crc.to_be_bytes());
+    }
+    if r.fp == RFp::BadWithResidueTrailer {
+        let n = bytes.len();
+        bytes[n - 4..].copy_from_slice(&(0x2144_DF1Cu32 ^ 0x5354_554e).to_be_bytes());
+        let c = crypto::crc32(&bytes);
+        bytes.extend_from_slice(&c.to_le_bytes());
+        bytes.extend_from_slice(&[0x80, 0x28, 0x00, 0x04, 0, 0, 0, 0]);
+    }
+    if r.fp == RFp::BadWithLookalikeTrailer {
+        let n = bytes.len();
+        let right = crypto::crc32(&bytes[..n - 8]) ^ 0x5354_554e;
+        bytes.extend_from_slice(&[0x80, 0x28, 0x00, 0x04]);
+        bytes.extend_from_slice(&right.to_be_bytes());
     }
     if r.fp == RFp::BadThenSecondFp {
         let final_len = bytes.len() - 20 + 8;
